@@ -12,6 +12,7 @@ import (
 
 	sdkmath "cosmossdk.io/math"
 
+	"github.com/ethereum/go-ethereum/accounts/abi"
 	stakingtypes "github.com/cosmos/cosmos-sdk/x/staking/types"
 )
 
@@ -22,6 +23,7 @@ type HistOpts struct {
 	Boundary      bool // include malformed / boundary inputs (0x values, forged reports, gov list changes by gov ...)
 	GovOps        bool // governance-signed privileged ops (cycle list, params, spec updates, mint init)
 	NoBadValues   bool // never submit values that the known halting defects need (used while a finding is open)
+	TieBias       bool // equal-power reporters submitting a few distinct values (equal-weight ties in weighted-mode rounds)
 	Stories       int  // percentage of histories that contain a scripted dispute life cycle
 	ValStatus     bool // SDK-native validator jail / unjail events (validators leave and re-enter the bonded set)
 	DisputeBias   int  // extra weight for dispute lifecycle ops
@@ -80,6 +82,11 @@ func (w *World) spotValue(o HistOpts) string {
 }
 
 func (w *World) depositValue(o HistOpts) string {
+	if o.TieBias {
+		// two fixed candidate values: with equal-power reporters this produces exact ties
+		rcp := w.Users[0].Addr.String()
+		return DepositValue(rcp, new(big.Int).Mul(big.NewInt(int64(1+w.pick(2))), big.NewInt(1e15)), big.NewInt(0))
+	}
 	rc := w.user().Addr.String()
 	amt := new(big.Int).Mul(big.NewInt(int64(1+w.pick(5000))), big.NewInt(1e12))
 	tip := new(big.Int).Mul(big.NewInt(int64(w.pick(3))), big.NewInt(1e12))
@@ -157,6 +164,24 @@ func (w *World) Bootstrap(o HistOpts) {
 	if !w.Begin(time.Second) {
 		return
 	}
+	if o.TieBias {
+		for _, u := range w.Users {
+			w.Delegate(u, w.Vals[0], 100_000_000)
+			w.CreateReporter(u, sdkmath.LegacyZeroDec(), 1_000_000)
+		}
+		// a weighted-mode query type with a one-block window (anyone may register a spec)
+		spec := registrytypes.GenesisDataSpec()
+		spec.AggregationMethod = "weighted-mode"
+		spec.ReportBlockWindow = 1
+		spec.Registrar = ""
+		spec.AbiComponents = []*registrytypes.ABIComponent{{Name: "x", FieldType: "string"}}
+		w.RegisterSpec(w.Users[0], "tiemode", spec)
+		inner, _ := abi.Arguments{{Type: tString}}.Pack("a")
+		qd, _ := abi.Arguments{{Type: tString}, {Type: tBytes}}.Pack("tiemode", inner)
+		w.addQuery("qmode", qd)
+		w.End()
+		return
+	}
 	for i, u := range w.Users {
 		if w.pick(5) == 0 {
 			continue
@@ -194,6 +219,18 @@ func (w *World) RandomOp(o HistOpts) {
 	type op struct {
 		w int
 		f func()
+	}
+	if o.TieBias && w.pick(2) == 0 {
+		if _, ok := w.QData["qmode"]; ok {
+			// burst: a tip, then 2 or 4 equal-power reporters split evenly between two values
+			w.Tip(w.user(), "qmode", int64(1_000_000+w.pick(3_000_000)))
+			k := 2 * (1 + w.pick(2))
+			off := w.pick(len(w.Users))
+			for i := 0; i < k; i++ {
+				w.Submit(w.Users[(off+i)%len(w.Users)], "qmode", hex32(uint64(1+i%2)))
+			}
+			return
+		}
 	}
 	ops := []op{
 		{8 + o.StakingBias, func() { w.Delegate(w.anyActor(), w.val(), w.amount()) }},
